@@ -139,7 +139,8 @@ pub fn gen_packet(r: &mut Rng, o: &PktOpts) -> Vec<u8> {
             [1u16, 28, 2, 5, 12, 15, 6, 39, 16, 999][r.below(10)]
         };
         be16(&mut p, ty);
-        be16(&mut p, if r.chance(1, 20) { 3 } else { 1 });
+        // classes: IN mostly; CH, HS, NONE, ANY, 0, the mDNS cache-flush form of IN, all ones
+        be16(&mut p, if r.chance(1, 12) { [3u16, 4, 254, 255, 0, 0x8001, 0xffff][r.below(7)] } else { 1 });
         p.extend(&[if r.chance(1, 8) { r.next() as u8 } else { 0 }, 0, r.next() as u8, r.next() as u8]);
         let lenpos = p.len();
         be16(&mut p, 0);
